@@ -57,6 +57,19 @@ pub fn directed() -> Vec<(String, String)> {
     ] {
         add("directed", t.to_string());
     }
+    for t in crate::bcfam::placement_corners() {
+        add("directed", t);
+    }
+    // error messages that quote a long argument: multi-byte characters at every offset around the places where a
+    // message might be cut
+    for off in 24usize..=40 {
+        let t: String = "x".repeat(off) + "€ en nog wat tekst erachter 😀 tot het eind";
+        add("directed", format!("int(\"{t}\")"));
+        add("directed", format!("float(\"{t}\")"));
+        add("directed", format!("stel a = [1]; a[\"{t}\"]"));
+        add("directed", format!("onbekend_{}", "é".repeat(off)));
+        add("directed", format!("lengte(1, \"{t}\")"));
+    }
     // deep nesting, long programs, huge literals
     for d in [50usize, 500, 3000, 20000] {
         add("deep-parens", format!("{}1{}", "(".repeat(d), ")".repeat(d)));
